@@ -450,6 +450,11 @@ func c16Worker(sh *explore.Shard) {
 				res := inproc.Scan(modelgit.NewEnv(r, plan), inproc.SimpleGrouper{Walk: sc.Walks}, nil, sizes.NameStyleNone, nil)
 				sh.C.Evals++
 				sh.C.Nontrivial++
+				if res.Hang {
+					sh.C.Violate(explore.Violation{Property: "C16", Class: "hang", Msg: fmt.Sprintf("%s output cut after %d bytes (exit %d): %v", inv.Kind, k, exit, res.Err),
+						Case: caseJSON(sh.Index(), map[string]any{"kind": inv.Kind, "bytes": k, "exit": exit})})
+					return // the abandoned goroutines may disturb later scans of this worker
+				}
 				if res.Panic != nil {
 					sh.C.Violate(explore.Violation{Property: "C16", Class: "panic", Msg: fmt.Sprintf("%s output cut after %d bytes (exit %d): scan panicked: %v", inv.Kind, k, exit, res.Panic),
 						Case: caseJSON(sh.Index(), map[string]any{"kind": inv.Kind, "bytes": k, "exit": exit}), Detail: res.Stack})
